@@ -285,6 +285,77 @@ theorem C05_expected_blocking_no_lost_wakeup (evs : List ExpBlEv) :
     (∀ i, i < 1 → 0 < (urun 1 (evs.map ExpBlEv.toEv)).counts i) → 0 < (urun 1 (evs.map ExpBlEv.toEv)).trig :=
   unit_no_lost_wakeup 1 (by decide) _ (expbl_allCall evs)
 
+/-! ### Stopping a wrapper: flip first, then queue the stopping task
+
+The user thread flips a wrapper to STOPPING and queues its stopping task; the task (on the wrapper's worker) ends by setting STOPPED.
+With the flip first the wrapper always ends STOPPED; with the task queued first the task can finish before the flip, which then
+overwrites STOPPED — the wrapper stays STOPPING and the next `reset()` refuses to start. -/
+
+inductive WState | running | stopping | stopped
+deriving DecidableEq, Repr
+
+structure StopSt where
+  st : WState := .running
+  upc : Nat := 0           -- user: 0 = nothing done, 1 = first statement done, 2 = both done
+  queued : Bool := false
+  wdone : Bool := false
+
+/-- one step of the user (`true`) or of the worker (`false`); `flipFirst`: the order of the user's two statements -/
+def stopStep (flipFirst : Bool) (s : StopSt) : Bool → StopSt
+  | true =>
+    if s.upc = 0 then (if flipFirst then { s with st := .stopping, upc := 1 } else { s with queued := true, upc := 1 })
+    else if s.upc = 1 then (if flipFirst then { s with queued := true, upc := 2 } else { s with st := .stopping, upc := 2 })
+    else s
+  | false => if s.queued && !s.wdone then { s with st := .stopped, wdone := true } else s
+
+def stopRun (flipFirst : Bool) (sched : List Bool) : StopSt := sched.foldl (stopStep flipFirst) {}
+
+def StopInv (s : StopSt) : Prop :=
+  (s.queued = true → s.upc = 2) ∧ (s.wdone = true → s.queued = true ∧ s.st = .stopped) ∧ s.upc ≤ 2
+
+theorem stopInv_step (s : StopSt) (b : Bool) (h : StopInv s) : StopInv (stopStep true s b) := by
+  obtain ⟨h1, h2, h3⟩ := h
+  cases b with
+  | true =>
+    simp only [stopStep]
+    by_cases u0 : s.upc = 0
+    · simp only [u0, if_true]
+      refine ⟨fun hq => ?_, fun hw => ?_, by simp⟩
+      · have := h1 hq; omega
+      · have := (h2 hw).1; have := h1 this; omega
+    · by_cases u1 : s.upc = 1
+      · simp only [u0, u1, if_true, if_false]
+        refine ⟨fun _ => rfl, fun hw => ?_, by simp⟩
+        have := (h2 hw).1; have := h1 this; omega
+      · simp only [u0, u1, if_false]; exact ⟨h1, h2, h3⟩
+  | false =>
+    simp only [stopStep]
+    by_cases hq : (s.queued && !s.wdone) = true
+    · simp only [hq, if_true]
+      simp only [Bool.and_eq_true, Bool.not_eq_true'] at hq
+      exact ⟨h1, fun _ => ⟨hq.1, rfl⟩, h3⟩
+    · simp only [hq]; exact ⟨h1, h2, h3⟩
+
+/-- **the current order** (`node_flips_before_stopping_task`, `conn_flips_before_stopping_task`): under every interleaving, once the
+stopping task has run the wrapper is STOPPED -/
+theorem C05_wrapper_ends_stopped (sched : List Bool) :
+    node_flips_before_stopping_task = true ∧ conn_flips_before_stopping_task = true ∧ node_running_before_first_task = true ∧
+    ((stopRun true sched).wdone = true → (stopRun true sched).st = .stopped) := by
+  refine ⟨by decide, by decide, by decide, ?_⟩
+  have : StopInv (stopRun true sched) := by
+    unfold stopRun
+    suffices H : ∀ s, StopInv s → StopInv (sched.foldl (stopStep true) s) from H _ ⟨by simp, by simp, by simp⟩
+    induction sched with
+    | nil => intro s h; exact h
+    | cons b bs ih => intro s h; exact ih _ (stopInv_step s b h)
+  intro hw
+  exact (this.2.1 hw).2
+
+/-- with the stopping task queued first a schedule leaves the wrapper STOPPING although the task has run -/
+theorem C05_task_first_stays_stopping :
+    (stopRun false [true, false, true]).wdone = true ∧ (stopRun false [true, false, true]).st = .stopping ∧
+    (stopRun false [true, false, true]).upc = 2 := by decide
+
 /-- **before the repair** (one check per event) the selection handler could be left ready with no call pending — the schedule of the
 stall observed on the real threads: two expectations (one message, then none) queued before the message arrives. -/
 theorem C05_oneshot_selection_stalls :
